@@ -17,6 +17,7 @@ from symex.larr import LArr
 PROPERTY = "C11"
 FUNCTIONS = ["spikeglx.Reader.__init__", "Reader.open", "Reader.ns", "Reader.rl", "Reader.shape", "Reader.read/__getitem__", "spikeglx.OnlineReader.ns"]
 ASSUMPTIONS = [
+    "open-later / reopen cases: the file has B bytes when the Reader is built (or first opened) and B2 bytes when open() runs, both free; premise as in the statement: the size seen at construction disagrees with the reader's sample count",
     "np.memmap(shape=(ns,nc)) raises ValueError exactly when ns*nc*itemsize exceeds the file size (NumPy's documented check) and otherwise exposes the file's first ns frames",
     "integer/real model: B/itemsize/nc/fs and round(.*fs) are exact reals; IEEE doubles are covered twice: exactly (cvc5 FP theory) for sizes below 2^10 (quick) / 2^16 (thorough), and through the standard error model fl(x)=x(1+e), |e|<=2^-53, in non-linear real arithmetic for all sizes up to 2^40",
     "file holds at least one complete frame; nc concrete per case (2, 4, 385 in the arithmetic-only case)",
@@ -84,12 +85,42 @@ def _mk(ctx, nc, fs_key, online=False, cbin=False):
         F.add("/d/x.imec.ap.bin", True, B, _raw(frames, nc))
         path = FakePath("/d/x.imec.ap.bin")
     cls = spikeglx.OnlineReader if online else spikeglx.Reader
-    sr = ctx.call("open", cls, path, ignore_warnings=True)
+    iw = bool(ctx.bool("ignore_warnings"))      # with and without the "streaming" switch: it may silence warnings, nothing else
+    sr = ctx.call("open", cls, path, ignore_warnings=iw)
     return sr, B, T, frames
 
 
 def case_open(ctx, nc, fs_key, online, cbin):
     sr, B, T, frames = _mk(ctx, nc, fs_key, online, cbin)
+    _check_reader(ctx, sr, frames, nc, fs_key, online)
+
+
+def case_open_later(ctx, nc, fs_key, reopen):
+    """recording still in progress: the Reader is constructed (open=False, or opened and closed again) while the file has B
+    bytes - disagreeing with the metadata - and opened when it has B2 bytes: the frames present at that moment count"""
+    import spikeglx
+    n = nc - 1
+    B = ctx.int("B", 2 * nc, 10 ** 12)
+    B2 = ctx.int("B2", 2 * nc, 10 ** 12)
+    T = ctx.real("claimed_secs", 0, 10 ** 6)
+    sites = [(0, i % 2, i // 2) for i in range(n)]
+    txt = sglx.imec_meta_text("3B2", sites, ns=sglx.S(T), fs_hz=FS[fs_key], file_size=123)
+    F = fakefs.install(fakefs.FakeFS())
+    F.add("/d/x.imec.ap.meta", True, len(txt), [{"pos": 0, "text": txt}])
+    F.add("/d/x.imec.ap.bin", True, B, _raw(B // (2 * nc), nc))
+    iw = bool(ctx.bool("ignore_warnings"))
+    sr = ctx.call("construct", spikeglx.Reader, FakePath("/d/x.imec.ap.bin"), ignore_warnings=iw, open=reopen)
+    ctx.assume(not_(core.eq(sr.nc * sr.ns * 2, B)))        # the statement's premise: size and metadata disagree
+    if reopen:
+        sr.close()
+    f = F.get("/d/x.imec.ap.bin")
+    f.size = B2
+    f.content = _raw(B2 // (2 * nc), nc)
+    ctx.call("open", sr.open)
+    _check_reader(ctx, sr, B2 // (2 * nc), nc, fs_key, False)
+
+
+def _check_reader(ctx, sr, frames, nc, fs_key, online):
     ns = sr.ns
     ctx.oblige("ns_is_number_of_complete_frames", core.eq(ns, frames), detail={"ns": ns, "frames": frames})
     ctx.oblige("shape_matches", and_(core.eq(sr.shape[0], frames), sr.shape[1] == nc))
@@ -191,6 +222,8 @@ def cases(tier):
     cs.append(Case("online_nc2_frac", "case_open", {"nc": 2, "fs_key": "frac", "online": True, "cbin": False}))
     cs.append(Case("cbin_nc4", "case_open", {"nc": 4, "fs_key": "30000", "online": False, "cbin": True}))
     cs.append(Case("cbin_nc2_frac", "case_open", {"nc": 2, "fs_key": "frac", "online": False, "cbin": True}))
+    cs.append(Case("open_later_nc4", "case_open_later", {"nc": 4, "fs_key": "30000", "reopen": False}, timeout_s=1200))
+    cs.append(Case("reopen_later_nc2_frac", "case_open_later", {"nc": 2, "fs_key": "frac", "reopen": True}, timeout_s=1200))
     cs.append(Case("arith_385_30000", "case_arith_385", {"fs_key": "30000"}))
     cs.append(Case("arith_385_2500", "case_arith_385", {"fs_key": "2500"}))
     for fk in ("30000", "frac"):
@@ -207,12 +240,49 @@ def twins(tier):
         Twin("online_round", m, "return int(self.file_bin.stat().st_size / self.dtype.itemsize / self.nc)", "return int(np.round(self.file_bin.stat().st_size / self.dtype.itemsize / self.nc))", ["online_nc4"]),
         Twin("size_test_without_itemsize", m, "if self.nc * self.ns * self.dtype.itemsize != self.nbytes:", "if self.nc * self.ns != self.nbytes:", ["offline_nc4_fs30000", "arith_385_30000"]),
         Twin("cbin_shape_ignored", m, "                self.meta[\"fileTimeSecs\"] = ftsec\n        else:", "                pass\n        else:", ["cbin_nc4"]),
+        Twin("duration_from_cached_size", m, "                ftsec = (\n                    self.file_bin.stat().st_size\n                    // (self.dtype.itemsize * self.nc)\n                    / self.fs\n                )", "                ftsec = self.nbytes // (self.dtype.itemsize * self.nc) / self.fs", ["open_later_nc4", "reopen_later_nc2_frac"]),
         Twin("no_rewrite_when_longer", m, "            if self.nc * self.ns * self.dtype.itemsize != self.nbytes:", "            if self.nc * self.ns * self.dtype.itemsize > self.nbytes:", ["offline_nc4_fs30000"]),
     ]
 
 
 def replay(case, params, cex):
     m = cex["model"]
+    if case.startswith(("open_later", "reopen_later")):
+        nc, fk = params["nc"], params["fs_key"]
+        T = float(Fraction(str(m["claimed_secs"])))
+        return f"""
+import sys, tempfile, pathlib
+sys.path.insert(0, '/verif')
+from symex import sglx
+import spikeglx
+nc, B, B2, T, reopen, iw = {nc}, {m['B']}, {m['B2']}, {T!r}, {params['reopen']}, {bool(m.get('ignore_warnings'))}
+if max(B, B2) > 400_000_000: not_reproduced('file too large to materialise')
+d = pathlib.Path(tempfile.mkdtemp())
+sites = [(0, i % 2, i // 2) for i in range(nc - 1)]
+(d / 'x.imec.ap.meta').write_text(sglx.imec_meta_text('3B2', sites, ns=format(T, '.12f'), fs_hz={FS[fk]!r}, file_size=123))
+def write(nbytes):
+    fr = nbytes // (2 * nc)
+    data = (np.arange(fr * nc, dtype=np.int64) % 30000).astype(np.int16)
+    with open(d / 'x.imec.ap.bin', 'wb') as f:
+        f.write(data.tobytes()); f.write(b'\\x07' * (nbytes - fr * nc * 2))
+    return data.reshape(fr, nc)
+write(B)
+sr = spikeglx.Reader(d / 'x.imec.ap.bin', ignore_warnings=iw, open=reopen)
+if sr.nc * sr.ns * 2 == B: not_reproduced('premise not met: size and metadata agree')
+if reopen: sr.close()
+data = write(B2)
+frames = B2 // (2 * nc)
+try:
+    sr.open()
+except Exception as e:
+    reproduced(f'open() of a file that went from {{B}} to {{B2}} bytes after the Reader was built raised {{type(e).__name__}}: {{e}}')
+print(sr.ns, frames, sr.shape, sr.rl)
+if sr.ns != frames: reproduced(f'ns={{sr.ns}} but the file holds {{frames}} complete frames when it is opened (it had {{B // (2 * nc)}} when the Reader was built)')
+if abs(sr.rl * sr.fs - frames) > 1e-6 * max(1, frames): reproduced('duration does not match')
+exp = data[:, sr.raw_channel_order].astype(np.float32) * sr.sample2volts[sr.raw_channel_order]
+if not np.array_equal(sr[:, :], exp): reproduced('values differ from the file prefix')
+not_reproduced()
+"""
     if case.startswith(("offline", "online", "arith", "cbin")):
         nc = params.get("nc", 385)
         fk = params["fs_key"]
@@ -226,9 +296,31 @@ sys.path.insert(0, '/verif')
 from symex import sglx
 import spikeglx
 nc, B, T, online, cbin = {nc}, {B}, {T!r}, {online}, {cb}
+iw = {bool(m.get('ignore_warnings'))}
 if B > 400_000_000: not_reproduced('file too large to materialise')
-if cbin: not_reproduced('cbin variant needs a real compressed stream; replayed through the bin variant only')
 d = pathlib.Path(tempfile.mkdtemp())
+if cbin:
+    import mtscomp
+    k = {m.get('cbin_frames', 1)}
+    if k > 3_000_000: not_reproduced('compressed stream too large to materialise')
+    sites = [(0, i % 2, i // 2) for i in range(nc - 1)]
+    (d / 'x.imec.ap.meta').write_text(sglx.imec_meta_text('3B2', sites, ns=format(T, '.12f'), fs_hz={FS[fk]!r}, file_size=123))
+    data = (np.arange(k * nc, dtype=np.int64) % 30000).astype(np.int16).reshape(k, nc)
+    data.tofile(d / 'raw.bin')
+    mtscomp.compress(d / 'raw.bin', out=d / 'x.imec.ap.cbin', outmeta=d / 'x.imec.ap.ch', sample_rate=float({FS[fk]!r}), n_channels=nc, dtype=np.int16,
+                     check_after_compress=False, chunk_duration=1, n_threads=1)
+    (d / 'raw.bin').unlink()
+    try:
+        sr = spikeglx.Reader(d / 'x.imec.ap.cbin', ignore_warnings=iw)
+    except Exception as e:
+        reproduced(f'opening a compressed stream of {{k}} frames announced as {{T}} s raised {{type(e).__name__}}: {{e}}')
+    print(sr.ns, k, sr.shape, sr.rl)
+    if sr.ns != k or sr.shape != (k, nc): reproduced(f'ns={{sr.ns}} shape={{sr.shape}} but the compressed stream holds {{k}} frames (ignore_warnings={{iw}})')
+    if abs(sr.rl * sr.fs - k) > 1e-6 * max(1, k): reproduced('duration does not match the frames present')
+    exp = data[:, sr.raw_channel_order].astype(np.float32) * sr.sample2volts[sr.raw_channel_order]
+    if not np.array_equal(sr[:, :], exp): reproduced('values differ from the stream')
+    if len(sr[k - 1:k, :]) != 1: reproduced('the last frame cannot be read')
+    not_reproduced()
 sites = [(0, i % 2, i // 2) for i in range(nc - 1)] if nc <= 8 else [(0, i % 2, i // 2) for i in range(384)]
 txt = sglx.imec_meta_text('3B2', sites, ns=format(T, '.12f'), fs_hz={FS[fk]!r}, file_size=123)
 (d / 'x.imec.ap.meta').write_text(txt)
@@ -238,7 +330,7 @@ with open(d / 'x.imec.ap.bin', 'wb') as f:
     f.write(data.tobytes()); f.write(b'\\x07' * (B - frames * nc * 2))
 cls = spikeglx.OnlineReader if online else spikeglx.Reader
 try:
-    sr = cls(d / 'x.imec.ap.bin', ignore_warnings=True)
+    sr = cls(d / 'x.imec.ap.bin', ignore_warnings=iw)
 except Exception as e:
     reproduced(f'opening a {{B}}-byte file ({{frames}} complete frames of {{nc}} channels + {{B - frames * nc * 2}} trailing bytes) raised {{type(e).__name__}}: {{e}}')
 print(sr.ns, frames, sr.shape, sr.rl)
